@@ -10,8 +10,8 @@ claimed = {
    note="The --max-servers bound, server lifetimes, termination of run() and goroutine interleavings between batches (semaphores, goroutines, OS processes) are not encodable and outside the claim; the order filter-then-mark inside run() is read off the source.",
    ref="7 (C05)"),
  "C07": dict(
-   text="Bounded model checking of newTestCaseLibrary / expandSuite / expandCases / groupTestCases (real SSA): for one suite with symbolic directives (each relevant list empty or one entry, TLS / client-cert / GET / receive-limit reliance, Connect version mode, suite mode vs run mode), one test case of symbolic stream type and one symbolic config case: a permutation exists iff the specification admits it, misconfigured suites are rejected, the request carries the case's version, protocol, codec, compression and TLS markers with a default service and method, and it is grouped under exactly one matching server instance.",
-   note="The 'all values' enum lists are bounded to two values per axis (natively too); literal spelling and uniqueness of names across several config cases, several suites/test cases and Go map iteration order are outside the claim.",
+   text="Bounded model checking of newTestCaseLibrary / expandSuite / expandCases / groupTestCases (real SSA): for one suite with symbolic directives (each relevant list empty or one entry, TLS / client-cert / GET / receive-limit reliance, Connect version mode, suite mode vs run mode), one test case of symbolic stream type and one symbolic config case: a permutation exists iff the specification admits it, misconfigured suites are rejected, the request carries the case's version, protocol, codec, compression and TLS markers with a default service and method, and it is grouped under exactly one matching server instance; generateTestCasePrefix gives two admitted config cases the same prefix iff they are the same case (0..2 entries per relevant list).",
+   note="The 'all values' enum lists are bounded to two values per axis (natively too); literal spelling of names (enum names are models of the generated String methods), several suites/test cases and Go map iteration order are outside the claim.",
    ref="7 (C07)"),
  "C11": dict(
    text="Bounded model checking of runTestCasesForServer over the fault matrix (batch of 2): start error, stdin write/close error, response read error, missing certificate under TLS, server exit before send k, and per send a client that refuses, answers (response / error result / callback error / neither) or answers later (while the runner waits, or never): every case ends with exactly one classified outcome (setup error vs own verdict), all outcomes are present when the function returns on the non-crash paths, the server is asked to stop; reference-server stderr lines are attributed to the named case (also the unterminated last line, also messages containing ': ') and everything else is passed through; x-expect-* headers are added.",
@@ -38,8 +38,8 @@ claimed = {
    note="Non-identity compressions are third-party code (C20); rawRequestSender.RoundTrip (net/http, io.Pipe, goroutines, net/url) is outside the claim.",
    ref="7 (C17)"),
  "C18": dict(
-   text="Bounded model checking of the byte kernels and the codec wiring: PercentEncodeMessage yields printable ASCII and is inverted by the reference decoder for every byte string of length <=3; header list -> gRPC metadata -> header list preserves the key up to case and the values in order with -bin values coded exactly once; StrictProtoCodec / StrictJSONCodec decode what Marshal, MarshalAppend and MarshalStable produce and reject unknown fields.",
-   note="base64 and proto/protojson are inverse-pair contract stubs in the engine (real libraries natively), so the libraries' own losslessness is outside the claim; connect.Error / grpc status conversions are not encoded.",
+   text="Bounded model checking of the byte kernels and the codec wiring: PercentEncodeMessage yields printable ASCII and is inverted by the reference decoder for every byte string of length <=3; header list -> gRPC metadata -> header list preserves the key up to case and the values in order with -bin values coded exactly once; StrictProtoCodec / StrictJSONCodec decode what Marshal, MarshalAppend and MarshalStable produce and reject unknown fields; test-case error -> connect.Error -> test-case error (real connect-go code executed from its SSA) preserves code, message and every detail's type URL and bytes (0..2 details, zero-length values included).",
+   note="base64 and proto/protojson are inverse-pair contract stubs in the engine (real libraries natively), so the libraries' own losslessness is outside the claim; the grpc status pair (grpc-go internals) is not encoded.",
    ref="7 (C18)"),
  "C02": dict(
    text="Crash-freedom clause (last sentence) plus the structural part of the derivation: populateExpectedResponse (unary and stream variants, real SSA) for every stream type 0..6, 0..3 request messages of any of the 4 request types or undecodable, response definition present or not, 0..3 response_data items, error present or not: no reachable panic, error-or-expectation, one payload per response item in order, request echo per stream type (full-duplex ping-pong, including more responses than requests).",
@@ -78,8 +78,8 @@ claimed = {
    note="Binary variant only; reader assumed to end/fail/complete within the stated number of calls; JSON variant (encoding/json), real timers and proto (un)marshalling are outside the claim.",
    ref="7 (C09)"),
  "C14": dict(
-   text="Bounded model checking of tracingReader.Read/Close, dataTracer and builder (real SSA) against a one-shot reference event list: for every layout of <=2 enveloped messages (declared length <=2), every cut point, every partition of the body into 2 reads and every terminal behaviour (case-split, enumerated completely), with flags, payload bytes and Close outcome symbolic; asserts byte/count/error transparency, exact envelope flags/length, consecutive indices, partial final event, end-stream content decompressed exactly when the compressed flag is set, single body end.",
-   note="Positions (lengths, cut, chunk sizes) are case-split rather than symbolic because symbolic slice offsets made the encoding intractable; decompressor is a contract stub; bytes.Buffer modelled on its fields; tracingResponseWriter.Write path and HTTP plumbing not covered yet.",
+   text="Bounded model checking of tracingReader.Read/Close, dataTracer and builder (real SSA) against a one-shot reference event list: for every layout of <=2 enveloped messages (declared length <=2), every cut point, every partition of the body into 2 reads and every terminal behaviour (case-split, enumerated completely), with flags, payload bytes and Close outcome symbolic; asserts byte/count/error transparency, exact envelope flags/length, consecutive indices, partial final event, end-stream content decompressed exactly when the compressed flag is set, single body end; plus tracingResponseWriter.Write with a short / failing last write: the trace shows what was actually written.",
+   note="Positions (lengths, cut, chunk sizes) are case-split rather than symbolic because symbolic slice offsets made the encoding intractable; decompressor is a contract stub; bytes.Buffer modelled on its fields; WriteHeader / trailer snapshotting of the response writer and the HTTP plumbing (RoundTripper/Handler) are not covered.",
    ref="7 (C14)"),
 }
 checks=[]
